@@ -297,6 +297,9 @@ structure Dec where
   mask : Nat
   app : Nat
   core : Nat
+  /-- `RoutingTableEntry(routes, key, mask)` is built with the default `sources={None}` (unknown):
+  the router stores no sources -/
+  sources : List (Option Nat) := [none]
   deriving Repr, DecidableEq
 
 /-- `unpack_routing_table_entry`; outer `none` = struct.error (not 16 bytes) -/
@@ -564,7 +567,8 @@ def ReadsAs (r : Row) (d : Option Dec) : Prop :=
   match r.ent, d with
   | none, none => True
   | some x, some d => d.key = x.key ∧ d.mask = x.mask ∧ d.app = x.app ∧ d.core = x.core ∧
-      (∀ b, b < 24 → (b ∈ d.routes ↔ x.route.testBit b = true)) ∧ (∀ b ∈ d.routes, b < 24)
+      (∀ b, b < 24 → (b ∈ d.routes ↔ x.route.testBit b = true)) ∧ (∀ b ∈ d.routes, b < 24) ∧
+      d.sources = [none]
   | _, _ => False
 instance (r : Row) (d : Option Dec) : Decidable (ReadsAs r d) := by
   unfold ReadsAs; split <;> infer_instance
@@ -780,13 +784,17 @@ def mErrToJson : MErr → Json
   | .structError => jList [Json.str "struct.error"]
 
 def decToJson (d : Option Dec) : Json :=
-  jOpt (fun d : Dec => jList [jNats (sortNats d.routes), jNat d.key, jNat d.mask, jNat d.app, jNat d.core]) d
+  jOpt (fun d : Dec => jList [jNats (sortNats d.routes), jNat d.key, jNat d.mask, jNat d.app, jNat d.core,
+    jInts (sortInts (d.sources.map srcCode))]) d
 
 def decOfJson (j : Json) : R (Option Dec) :=
   asOpt j (fun d => do
     match ← asArr d with
     | [r, k, m, a, c] => pure { routes := ← (← asArr r).mapM asNat, key := ← asNat k, mask := ← asNat m,
                                 app := ← asNat a, core := ← asNat c }
+    | [r, k, m, a, c, s] => pure { routes := ← (← asArr r).mapM asNat, key := ← asNat k, mask := ← asNat m,
+                                   app := ← asNat a, core := ← asNat c,
+                                   sources := (← (← asArr s).mapM asInt).map srcOfCode }
     | _ => .error "dec")
 
 /-- driver representation of a chip: rows materialised in an array after every command -/
